@@ -33,6 +33,9 @@ LAYOUTS = [
     "procs:journal_file",
     "procs:journal_file_open",
     "procs:journal_redis",
+    # JournalRedisBackend(use_cluster=True): an append is reserve-a-number, then store the record
+    # (two commands), with yield points on every line of _redis.py
+    "procs:journal_redis_cluster",
 ]
 
 
@@ -49,15 +52,52 @@ def target_files(layout: str, extra: tuple[str, ...] = ()) -> tuple[str, ...]:
         f = [rs.__file__]
     elif kind == "cached_sqlite":
         f = [cs.__file__, rs.__file__]
+    elif kind == "journal_redis_cluster":
+        import optuna.storages.journal._redis as jr
+
+        f = [js.__file__, jr.__file__]
     else:
         f = [js.__file__]
     return tuple(f) + tuple(extra)
 
 
+class _SchedTime:
+    """`time` for a module whose sleeps must run on the scheduler's virtual clock."""
+
+    def __init__(self, sched: Scheduler) -> None:
+        self._s = sched
+
+    def sleep(self, secs: float) -> None:
+        if self._s.me() is not None and self._s.active:
+            self._s.sleep(secs)
+
+    def __getattr__(self, n: str) -> Any:
+        import time as _t
+
+        return getattr(_t, n)
+
+
+class _SameIdent:
+    """`threading` for journal/_storage.py in the "processes" layouts: every worker is the main
+    thread of its own (forked) process, and those all report the same ident."""
+
+    def __init__(self, real: Any) -> None:
+        self._real = real
+
+    def get_ident(self) -> int:
+        return 140000000000000
+
+    def __getattr__(self, n: str) -> Any:
+        return getattr(self._real, n)
+
+
 class Env:
     """One schedule's worth of storages.  Use as a context manager."""
 
-    def __init__(self, layout: str, tmpdir: str, sched: Scheduler, n_workers: int, rdb_kwargs: dict[str, Any] | None = None) -> None:
+    def __init__(self, layout: str, tmpdir: str, sched: Scheduler, n_workers: int, rdb_kwargs: dict[str, Any] | None = None, pickled: bool = False) -> None:
+        # pickled: the "processes" get their journal storage as a pickled copy of the set-up
+        # storage (process pools, joblib, dask) instead of constructing their own
+        self.pickled = pickled
         self.layout = layout
         self.mode, self.kind = layout.split(":")
         self.tmpdir = tmpdir
@@ -108,12 +148,12 @@ class Env:
             p = self.path + ".log"
             lock = JournalFileSymlinkLock(p) if k == "journal_file" else JournalFileOpenLock(p)
             return optuna.storages.JournalStorage(JournalFileBackend(p, lock_obj=lock))
-        if k == "journal_redis":
+        if k in ("journal_redis", "journal_redis_cluster"):
             import fakeredis
 
             if self._redis is None:
                 self._redis = fakeredis.FakeStrictRedis()
-            be = JournalRedisBackend("redis://localhost")
+            be = JournalRedisBackend("redis://localhost", use_cluster=k.endswith("cluster"))
             be._redis = self._redis
             return optuna.storages.JournalStorage(be)
         raise ValueError(k)
@@ -128,13 +168,27 @@ class Env:
         if self.kind.startswith("journal_file"):
             self.fctx = faultfs.Ctx(self.sched)
             faultfs.install(self.fctx)
-        if self.kind == "journal_redis":
+        if self.kind.startswith("journal_redis"):
             # snapshots every second study / trial: the final view (a fresh worker) then starts
             # from a snapshot taken during the race plus the tail of the log
             import optuna.storages.journal._storage as js
 
             self._old_interval = js.SNAPSHOT_INTERVAL
             js.SNAPSHOT_INTERVAL = 2
+        if self.kind == "journal_redis_cluster":
+            # a reader waits (time.sleep) for a reserved record that is not stored yet: on the
+            # scheduler's virtual clock
+            import optuna.storages.journal._redis as jr
+
+            self._old_redis_time = jr.__dict__.get("time")
+            jr.time = _SchedTime(self.sched)  # type: ignore[attr-defined]
+        if self.mode == "procs" and self.kind.startswith("journal"):
+            # the main threads of forked processes all have the same thread ident, and the journal
+            # identifies a worker by (per-object uuid, thread ident): model that
+            import optuna.storages.journal._storage as js
+
+            self._old_threading = js.threading
+            js.threading = _SameIdent(js.threading)  # type: ignore[assignment]
         # the set-up storage (pre-history) and the workers' storages
         self.setup = self.new_storage()
         return self
@@ -143,6 +197,13 @@ class Env:
         """Call after the pre-history was written through self.setup."""
         if self.mode == "threads":
             st = [self.setup] * self.n
+        elif self.pickled and self.kind.startswith("journal"):
+            import pickle
+
+            st = [pickle.loads(pickle.dumps(self.setup)) for _ in range(self.n)]
+            if self._redis is not None:
+                for s in st:
+                    s._backend._redis = self._redis  # a restored redis backend reconnects by URL
         else:
             st = [self.new_storage() for _ in range(self.n)]
             for s in st:  # let every "process" load the pre-history before the race starts
@@ -160,10 +221,21 @@ class Env:
     def __exit__(self, *a: Any) -> None:
         if self.fctx is not None:
             faultfs.uninstall()
-        if self.kind == "journal_redis":
+        if self.kind.startswith("journal_redis"):
             import optuna.storages.journal._storage as js
 
             js.SNAPSHOT_INTERVAL = self._old_interval
+        if self.kind == "journal_redis_cluster":
+            import optuna.storages.journal._redis as jr
+
+            if self._old_redis_time is None:
+                jr.__dict__.pop("time", None)
+            else:
+                jr.time = self._old_redis_time  # type: ignore[attr-defined]
+        if self.mode == "procs" and self.kind.startswith("journal"):
+            import optuna.storages.journal._storage as js
+
+            js.threading = self._old_threading  # type: ignore[assignment]
         for s in self._engines:
             try:
                 s.scoped_session.remove()
